@@ -15,10 +15,11 @@
    weighted space; IndicatorSimplex(diameter >= 0) on a uniformly weighted space; LpNorm(inf) and
    IndicatorLpUnitBall(1) on an unweighted space (their proximals are NOT minimisers on other weightings:
    recorded findings, see C07/Refuted.v); GroupL1Norm(exponent 2) on a power space X^d whose weights are those
-   of X repeated d times, and IndicatorGroupL1UnitBall(exponent 2) likewise.  The KL family has its own
+   of X repeated d times, IndicatorGroupL1UnitBall(exponent 2) and Huber on X^d likewise;
+   IndicatorSumConstraint on a uniformly weighted space.  The KL family has its own
    theorems below (its values involve ln).                                                              *)
-From Coq Require Import Reals Lra Lia List Bool.
-From Verif Require Import Base.Num Base.Vec Base.VecR C07.Model C07.Convex C07.Leaves C07.LeafThms C07.Rules C07.L2 C07.Compose C07.Sorting C07.KL C07.Group C07.Proofs C07.Sound C07.Refuted.
+From Coq Require Import QArith Qreals Reals Lra Lia String List Bool.
+From Verif Require Import Base.Num Base.Vec Base.VecR C07.Model C07.Convex C07.Leaves C07.LeafThms C07.Rules C07.L2 C07.Compose C07.Sorting C07.KL C07.Group C07.PerPoint C07.Proofs C07.Sound C07.Refuted C07.BindSyntax Gen.ProxBindings C07.Bindings C07.Transfer.
 Import ListNotations.
 Local Open Scope R_scope.
 
@@ -219,6 +220,30 @@ Theorem prox_tree_default_convex_conj : forall (e : @fexpr R) (fs : list R -> op
 Proof. exact fprox_default_convex_conj. Qed.
 Print Assumptions prox_tree_default_convex_conj.
 
+(* Element-valued (per-point) steps through proximal_convex_conj and proximal_quadratic_perturbation
+   (vinv v = 1/v entry-wise, qc a v = 1/sqrt(2 v a + 1) entry-wise): the rules hold entry-wise, for arbitrary f;
+   they are part of the tree theorem (sig_ok admits SVec at a QuadraticPerturb node whose inner tree admits it). *)
+Theorem rule_convex_conj_elementwise_step : forall n (f fs : list R -> option R) (w v x q : list R),
+  allpos w -> allpos v -> length w = n -> length v = n -> length x = n ->
+  is_conj n w f fs ->
+  is_proxs n f (metric w (vinv v)) (vmul (vinv v) x) q ->
+  is_proxs n fs (metric w v) x (vsub x (vmul v q)).
+Proof. exact rule_moreau_vec. Qed.
+Print Assumptions rule_convex_conj_elementwise_step.
+Theorem rule_quadratic_perturbation_elementwise_step : forall n (f : list R -> option R) (w v : list R) (a : R) (u : list R) (k : R) (x q : list R),
+  0 <= a -> allpos w -> allpos v -> length w = n -> length v = n -> length u = n -> length x = n ->
+  let c := qc a v in
+  is_proxs n f (metric w (vmul v (vmul c c))) (vmul c (vsub (vmul c x) (vmul (vmul v c) u))) q ->
+  is_proxs n (fun z => eadd (f z) (Some (a * wnormsq w z + wdot w z u + k))) (metric w v) x q.
+Proof. exact rule_quadratic_perturbation_vec. Qed.
+Print Assumptions rule_quadratic_perturbation_elementwise_step.
+Theorem prox_tree_default_convex_conj_elementwise_step : forall (e : @fexpr R) (fs : list R -> option R) (v x : list R),
+  wf e -> allpos v -> length v = fdim e -> length x = fdim e -> sig_ok e (SVec (vinv v)) ->
+  is_conj (fdim e) (fweights e) (fval e) fs ->
+  exists p, prox_convex_conj (fprox e) (SVec v) x = Ok p /\ is_proxs (fdim e) fs (metric (fweights e) v) x p.
+Proof. exact fprox_default_convex_conj_vec. Qed.
+Print Assumptions prox_tree_default_convex_conj_elementwise_step.
+
 (* the pair used by IndicatorLpUnitBall(2).proximal = proximal_convex_conj(proximal_l2): the conjugate of the
    norm of the weighted space is the indicator of its unit ball (weighted Cauchy-Schwarz) *)
 Theorem norm_ball_conjugate_pair : forall n (w : list R), allpos w -> length w = n ->
@@ -345,6 +370,30 @@ Theorem factory_l1_l2 : forall m d lam (g wb : list R), 0 < lam -> (1 <= d)%nat 
 Proof. exact l1_l2_factory_sound. Qed.
 Print Assumptions factory_l1_l2.
 
+(* Huber on a vector field X^d (the repaired proximal_huber: every component times a pointwise factor) and
+   IndicatorSumConstraint (repaired: x + (c - sum x)/n; uniformly weighted space), all sizes *)
+Theorem group_huber_prox : forall m d gamma (wb x : list R) (s : R), 0 <= gamma -> 0 < s -> (1 <= d)%nat -> allpos wb ->
+  length wb = m -> length x = (d * m)%nat ->
+  let w := concat (repeat wb d) in
+  is_proxs (d * m) (leaf_val (FHuberG m d gamma) w) (metric w (repeat s (d * m))) x (prox_huber_g m d gamma s x).
+Proof. exact ghuber_leaf_prox. Qed.
+Print Assumptions group_huber_prox.
+Theorem indicator_sum_constraint_prox : forall n (c k : R) (w x : list R), 0 < k -> length x = n -> (1 <= n)%nat ->
+  is_proxs n (leaf_val (FSumC c) w) (repeat k n) x (prox_sumc c x).
+Proof. exact sumc_leaf_prox. Qed.
+Print Assumptions indicator_sum_constraint_prox.
+
+(* proximal_convex_conj_l1_l2(space, lam, g): the conjugate of lam*GroupL1Norm(. - g) is the indicator of
+   {pointwise 2-norm <= lam} plus <., g>_w; the factory projects every point of x - sigma g onto the lam-ball *)
+Theorem factory_convex_conj_l1_l2 : forall m d lam (g wb x : list R) (s : R), 0 < lam -> 0 < s -> (1 <= d)%nat ->
+  allpos wb -> length wb = m -> length g = (d * m)%nat -> length x = (d * m)%nat ->
+  let w := concat (repeat wb d) in
+  is_proxs (d * m)
+    (fun z => if forallb (fun a => Rleb a (lam * lam)) (pw_normsq m d z) then Some (wdot w z g) else None)
+    (metric w (repeat s (d * m))) x (prox_cc_l1_l2 m d lam (Some g) s x).
+Proof. exact ccl1l2_factory_prox. Qed.
+Print Assumptions factory_convex_conj_l1_l2.
+
 (* Kullback-Leibler (values involve ln, so these leaves are outside the executable tree model; the proximal
    formulas are the model's, tied by the correspondence):
    proximal_convex_conj_kl(space, lam, g)(sigma)(x) = (x + lam - sqrt((x-lam)^2 + 4 lam sigma g))/2 is the proximal
@@ -392,6 +441,92 @@ Theorem indicator_simplex_nonuniform_weights_refuted :
           (prox_obj (leaf_val (FSimplex d) w) (metric w (repeat sigma (length w))) x z).
 Proof. exact simplex_nonuniform_weights_refuted. Qed.
 Print Assumptions indicator_simplex_nonuniform_weights_refuted.
+
+(* ===== Tie to the CURRENT source by regeneration (translate/prox_bindings.py -> Gen/ProxBindings.v) =====
+   The `proximal` properties of default_functionals.py / functional.py and the rule factories of
+   proximal_operators.py are re-read from /repo on every run; these theorems say that the hand model IS what the
+   regenerated fragments denote, for every carrier (in particular Q and R, where of_Z 1 = none_ by reflexivity).
+   Rebinding a class to another factory, swapping arguments, or editing a rule's operator expression breaks them. *)
+Theorem source_bindings_denote_model : forall (T : Type) (H : Num T) (NS : NumS T) (k : @leaf T) w s x,
+  leaf_prox_gen k w s x = leaf_prox k w s x.
+Proof. exact @leaf_prox_gen_eq. Qed.
+Print Assumptions source_bindings_denote_model.
+Theorem source_translation_denotes_model : forall (T : Type) (H : Num T) (NS : NumS T) pf y sg x,
+  rule_factory rule_proximal_translation (upd (upd base_env "prox_factory" (VFac pf)) "y" (VVec y)) (SScal sg) x
+  = prox_translation pf y (SScal sg) x.
+Proof. exact @translation_expr_eq. Qed.
+Print Assumptions source_translation_denotes_model.
+Theorem source_arg_scaling_denotes_model : forall (T : Type) (H : Num T) (NS : NumS T), of_Z 1 = none_ ->
+  forall pf c sg x, neqb c nzero = false ->
+  rule_factory rule_proximal_arg_scaling (upd (upd base_env "prox_factory" (VFac pf)) "scaling" (VNum c)) (SScal sg) x
+  = prox_arg_scaling pf c (SScal sg) x.
+Proof. exact @arg_scaling_expr_eq. Qed.
+Print Assumptions source_arg_scaling_denotes_model.
+Theorem source_convex_conj_denotes_model : forall (T : Type) (H : Num T) (NS : NumS T), of_Z 1 = none_ ->
+  forall pf sg x,
+  rule_factory rule_proximal_convex_conj (upd base_env "prox_factory" (VFac pf)) (SScal sg) x
+  = prox_convex_conj pf (SScal sg) x.
+Proof. exact @convex_conj_expr_eq. Qed.
+Print Assumptions source_convex_conj_denotes_model.
+Theorem source_quadratic_perturbation_denotes_model : forall (T : Type) (H : Num T) (NS : NumS T), of_Z 1 = none_ ->
+  forall pf a u sg x, nltb a nzero = false ->
+  rule_factory rule_proximal_quadratic_perturbation
+     (upd (upd (upd base_env "prox_factory" (VFac pf)) "a" (VNum a)) "u" (match u with Some v => VVec v | None => VNone end))
+     (SScal sg) x
+  = prox_quad_pert pf a u (SScal sg) x.
+Proof. exact @quadratic_perturbation_expr_eq. Qed.
+Print Assumptions source_quadratic_perturbation_denotes_model.
+Theorem source_composition_denotes_model : forall (T : Type) (H : Num T) (NS : NumS T), of_Z 1 = none_ ->
+  forall pf n A mu sg x,
+  rule_factory rule_proximal_composition
+     (upd (upd (upd base_env "proximal" (VFac pf)) "operator" (VMat n A false)) "mu" (VNum mu)) (SScal sg) x
+  = prox_composition pf n A mu (SScal sg) x.
+Proof. exact @composition_expr_eq. Qed.
+Print Assumptions source_composition_denotes_model.
+Theorem source_left_scalar_wiring_denotes_model : forall (T : Type) (H : Num T) (NS : NumS T) (e : @fexpr T) c,
+  fprox (LScal c e) = left_scalar_gen (fprox e) c.
+Proof. exact @wiring_left_scalar_mult. Qed.
+Print Assumptions source_left_scalar_wiring_denotes_model.
+Theorem source_wiring_of_derived_functionals :
+  wire_FunctionalRightScalarMult = BRet (PCall "proximal_arg_scaling" [PAttr "self.functional.proximal"; PAttr "self.scalar"])
+  /\ wire_FunctionalTranslation = BRet (PCall "proximal_translation" [PAttr "self.functional.proximal"; PAttr "self.translation"])
+  /\ wire_FunctionalScalarSum = BRet (PAttr "self.left.proximal")
+  /\ wire_FunctionalDefaultConvexConjugate = BRet (PCall "proximal_convex_conj" [PAttr "self.convex_conj.proximal"])
+  /\ wire_BregmanDistance = BRet (PAttr "self.__bregman_dist.proximal")
+  /\ wire_FunctionalQuadraticPerturb =
+       BIfSeq (CCmp "self.quadratic_coeff" "<" (NInt 0)) (BRaise "TypeError") BEnd
+         (BRet (PCall "proximal_quadratic_perturbation"
+                  [PAttr "self.functional.proximal"; PKw "a" (PAttr "self.quadratic_coeff"); PKw "u" (PAttr "self.linear_term")]))
+  /\ bind_SeparableSum = BLet "proximals" (PComp (PAttr "func.proximal") "func" (PAttr "self.functionals"))
+                           (BRet (PCall "combine_proximals" [PStar "proximals"])).
+Proof. repeat split; reflexivity. Qed.
+Print Assumptions source_wiring_of_derived_functionals.
+Example carriers_satisfy_one : @of_Z R _ 1%Z = none_ /\ @of_Z QArith_base.Q _ 1%Z = none_.
+Proof. split; reflexivity. Qed.
+
+(* ===== Transfer: what the shards execute at Q is the rational restriction of what is proved at R =====
+   For every functional tree without square roots (all leaves except L2Norm, the 2-ball, the pointwise-2-norm
+   group functionals and Huber on vector fields; all rules except quadratic perturbation, whose constant is
+   1/sqrt(2 sigma a + 1)), every step specification and every rational input: Q2R commutes with fval and fprox
+   (the insertion sort, the simplex scan and every comparison included; x/0 = 0 on both sides). *)
+Theorem model_value_transfer : forall e : @fexpr Q, sqrt_free e = true -> forall x : list Q,
+  extQR (fval e x) = fval (fexprQR e) (map Q2R x).
+Proof. exact fval_transfer. Qed.
+Print Assumptions model_value_transfer.
+Theorem model_prox_transfer : forall e : @fexpr Q, sqrt_free e = true -> forall (s : @sig Q) (x : list Q),
+  resQR (fprox e s x) = fprox (fexprQR e) (sigQR s) (map Q2R x).
+Proof. exact fprox_transfer. Qed.
+Print Assumptions model_prox_transfer.
+Theorem proj_simplex_transfers : forall (d : Q) (x : list Q),
+  resQR (proj_simplex d x) = proj_simplex (Q2R d) (map Q2R x).
+Proof. exact proj_simplex_transfer. Qed.
+Print Assumptions proj_simplex_transfers.
+Theorem rules_transfer : forall pq pr, fac_transfer pq pr ->
+  (forall y, fac_transfer (prox_translation pq y) (prox_translation pr (map Q2R y))) /\
+  (forall c, fac_transfer (prox_arg_scaling pq c) (prox_arg_scaling pr (Q2R c))) /\
+  fac_transfer (prox_convex_conj pq) (prox_convex_conj pr).
+Proof. intros pq pr H. repeat split; intros; [apply translation_transfer|apply arg_scaling_transfer|apply convex_conj_transfer]; exact H. Qed.
+Print Assumptions rules_transfer.
 
 (* non-vacuity: a weighted, translated, scaled, perturbed separable tree is well-formed *)
 Example wf_example :
